@@ -257,6 +257,21 @@ theorem inv_applyGetFail (cfg : Cfg) (hc : cfg.ignoreExact = true) {st : St} (hr
     have hb : Bad st (st.consumed + 1) := ⟨hs0, hlog⟩
     exact inv_ignore cfg hc _ (inv_headBad hr hnone' hwg hle hb h) ⟨hs0, hlog⟩
 
+theorem inv_applyNoRows {st : St} (hr : st.phase = .running)
+    (hwg : st.walGone = false) (h : Inv st) : Inv (doApplyNoRows st) := by
+  unfold doApplyNoRows
+  split
+  case isFalse => exact h
+  case isTrue hg =>
+    obtain ⟨hnone, hle, hlog⟩ := hg
+    have hnone' : st.inflight = none := by simpa using hnone
+    have hs0 : 0 ≤ st.consumed + 1 := by have := h.ack_lo; have := h.ack_cons; omega
+    have hb : Bad st (st.consumed + 1) := ⟨hs0, hlog⟩
+    split
+    case isTrue hv =>
+      exact inv_badCommit hr hnone' hle hb ((validSeq_iff st _ hs0).mp hv) h
+    case isFalse hv => exact inv_headBad hr hnone' hwg hle hb h
+
 theorem inv_applyBegin (cfg : Cfg) (hc : cfg.ignoreExact = true) {st : St} (hr : st.phase = .running)
     (hwg : st.walGone = false) (h : Inv st) : Inv (doApplyBegin cfg st) := by
   unfold doApplyBegin
@@ -1080,6 +1095,12 @@ theorem inv_step (cfg : Cfg) (hx : cfg.ignoreExact = true) {st : St} (e : Ev) (h
       · exact h
       · exact inv_applyGetFail cfg hx ‹_› (by simpa using ‹¬ st.walGone = true›) h
     · exact h
+  case applyNoRows =>
+    split
+    · split
+      · exact h
+      · exact inv_applyNoRows ‹_› (by simpa using ‹¬ st.walGone = true›) h
+    · exact h
   case applyTake =>
     split
     · exact inv_applyTake cfg ‹_› h
@@ -1194,6 +1215,13 @@ theorem taken_acquired_step (cfg : Cfg) (hc : cfg.atomicAcquire = true) {st : St
         split
         · rw [ignoreMsg_eq]; exact h
         · exact h
+    · exact h
+  case applyNoRows =>
+    split
+    · split
+      · exact h
+      · unfold doApplyNoRows
+        (repeat' split) <;> exact h
     · exact h
   case applyTake =>
     split
